@@ -329,15 +329,65 @@ def r18_5(ctx):
                               f"distance mixes component {qi} of the query with component {ei} of the palette entry: `{norm(n)}`")
         ctx.floor(pairs, 3, "component differences in the distance closure")
         return
+    # shape D:  index, _d = min(enumerate(<D(entry) for every entry of self._colors, in order>), key=<second item>)
+    # (first minimum by distance; enumerate numbers the entries from 0 - the element min(range, key=..) picks)
+    if mincall is None and shape_b is None:
+        for x in walk_local(f.node):
+            if not (isinstance(x, ast.Assign) and isinstance(x.targets[0], ast.Tuple) and len(x.targets[0].elts) == 2 and isinstance(x.value, ast.Call) and call_name(x.value) == "min" and len(x.value.args) == 1):
+                continue
+            en_ = x.value.args[0]
+            key_ = next((k.value for k in x.value.keywords if k.arg == "key"), None)
+            key_ok = key_ is not None and (norm(key_) in ("itemgetter(1)", "operator.itemgetter(1)") or (isinstance(key_, ast.Lambda) and isinstance(key_.body, ast.Subscript) and norm(key_.body.slice) == "1"))
+            if not (isinstance(en_, ast.Call) and call_name(en_) == "enumerate" and len(en_.args) == 1 and not en_.keywords and key_ok):
+                continue
+            from ..astutil import inline as _inl185, single_defs as _sdf185
+            it_ = _inl185(en_.args[0], _sdf185(f.node))
+            dname = None
+            if isinstance(it_, ast.Call) and call_name(it_) == "map" and len(it_.args) == 2 and isinstance(it_.args[0], ast.Name) and norm(it_.args[1]) == "self._colors":
+                dname = it_.args[0].id
+            elif isinstance(it_, (ast.GeneratorExp, ast.ListComp)) and len(it_.generators) == 1 and not it_.generators[0].ifs and norm(it_.generators[0].iter) == "self._colors" and isinstance(it_.elt, ast.Call) and isinstance(it_.elt.func, ast.Name) and len(it_.elt.args) == 1 and norm(it_.elt.args[0]) == norm(it_.generators[0].target):
+                dname = it_.elt.func.id
+            idxname = norm(x.targets[0].elts[0])
+            if dname is None or not any(isinstance(r.value, ast.Name) and r.value.id == idxname for r in rets):
+                continue
+            keyfn = next((n for n in walk_local(f.node) if isinstance(n, ast.FunctionDef) and n.name == dname), None)
+            if keyfn is None:
+                continue
+            other_d = [o for o in other if o != f"return {idxname}"]
+            ctx.check(not other_d, f.fq, short(x), f"{f.module.relpath}:{x.lineno}", "match returns the position of the first minimum of the distances of all palette entries, in order",
+                      f"Palette.match returns something else besides the argmin: {other_d}")
+            q_names = None
+            for n in walk_local(f.node):
+                if isinstance(n, ast.Assign) and isinstance(n.targets[0], ast.Tuple) and norm(n.value) == color_p:
+                    q_names = [e.id for e in n.targets[0].elts]
+            ep = keyfn.args.args[0].arg
+            e_names = None
+            for n in ast.walk(keyfn):
+                if isinstance(n, ast.Assign) and isinstance(n.targets[0], ast.Tuple) and norm(n.value) == ep:
+                    e_names = [e.id for e in n.targets[0].elts]
+            if q_names is None or e_names is None or len(q_names) != 3 or len(e_names) != 3:
+                raise AnalysisError("Palette.match: cannot find the component unpacks of the query colour and the palette entry")
+            pairs = 0
+            for n in ast.walk(keyfn):
+                if isinstance(n, ast.BinOp) and isinstance(n.op, (ast.Sub, ast.Add)) and isinstance(n.left, ast.Name) and isinstance(n.right, ast.Name):
+                    l, r_ = n.left.id, n.right.id
+                    if (l in q_names and r_ in e_names) or (l in e_names and r_ in q_names):
+                        qi = q_names.index(l) if l in q_names else q_names.index(r_)
+                        ei = e_names.index(r_) if r_ in e_names else e_names.index(l)
+                        pairs += 1
+                        ctx.check(qi == ei, f.fq, norm(n), f"{f.module.relpath}:{n.lineno}", f"component {qi} of the query paired with component {ei} of the entry",
+                                  f"distance mixes component {qi} of the query with component {ei} of the palette entry: `{norm(n)}`")
+            ctx.floor(pairs, 3, "component differences in the distance closure")
+            return
     # an explicit search loop (running minimum kept in locals that are re-assigned inside a for loop) is another algorithm: not read here
     loop_assigned = {t.id for lp_ in walk_local(f.node) if isinstance(lp_, (ast.For, ast.While)) for x_ in ast.walk(lp_) if isinstance(x_, ast.Assign) for t in x_.targets if isinstance(t, ast.Name)}
     for r in rets:
         if isinstance(r.value, ast.Name) and r.value.id in loop_assigned:
             raise AnalysisError(f"Palette.match: `{norm(r)}` returns a value maintained by an explicit search loop; R18.5 interprets min(range(..), key=..), list.index(min(..)) and min((distance, index) ..) only")
-    ctx.check((mincall is not None or shape_b is not None) and not other, f.fq, "return min(...)", f.where, "match returns the result of builtin min (or a cached copy of it)",
-              f"Palette.match returns something other than the builtin min(...) over the palette indices: {other}")
     if mincall is None and shape_b is None:
-        return
+        raise AnalysisError(f"Palette.match: the argmin over the palette is not written as min(range(..), key=..), list.index(min(..)), min((distance, index) ..) or min(enumerate(distances), key=second); returns: {[norm(r) for r in rets]}")
+    ctx.check(not other, f.fq, "return min(...)", f.where, "match returns the result of builtin min (or a cached copy of it)",
+              f"Palette.match returns something other than the builtin min(...) over the palette indices: {other}")
     if shape_b is not None:
         lc = shape_b[1]
         ge = lc.generators[0]
